@@ -139,6 +139,13 @@ impl Tracked {
 	}
 }
 
+/// What a `#[codec(skip)]` field of this type is reset to: a real, ledgered instance.
+impl Default for Tracked {
+	fn default() -> Self {
+		Tracked::new(0xdf)
+	}
+}
+
 impl Drop for Tracked {
 	fn drop(&mut self) {
 		let id = self.id;
